@@ -60,8 +60,17 @@ def x_cell_lookup(x: int, y: int, z: int) -> bool:
     hx.begin()
     w, h, d = hx.P['shape']
     table = _table((w, h, d))
+    cls = hx.P.get('cls', 'discrete')
     with patched_pandas():
-        env = Env.DiscreteWorld(Model(logger=NULL_LOGGER), w, h, d)     # real constructor (pandas contract stand-in)
+        # real constructors (pandas contract stand-in); the world kinds differ in what get_dimensions() etc. return
+        if cls == 'line':
+            env = Env.LineWorld(Model(logger=NULL_LOGGER), w)
+        elif cls == 'grid':
+            env = Env.GridWorld(Model(logger=NULL_LOGGER), w, h)
+        else:
+            env = Env.DiscreteWorld(Model(logger=NULL_LOGGER), w, h, d)
+        # a second world of ANOTHER shape, created later in the same process under the same (default) id
+        Env.DiscreteWorld(Model(logger=NULL_LOGGER), w + 2, h + 1, d + 1)
     env.cells = _ListCells(table)
     inside = 0 <= x < max(w, 1) and 0 <= y < max(h, 1) and 0 <= z < max(d, 1)
     try:
@@ -171,6 +180,8 @@ def obligations(tier):
         X("rows_follow_components", rows_follow_components, parts=[{"shape": sh} for sh in ([3, 2, 0], [2, 0, 0], [2, 2, 1])],
           labels=("looked_up_twice",), timeout=600, encoded=enc[1:] + (Env.DiscreteWorld.add_cell_component, Env.DiscreteWorld.remove_cell_component)),
         X("id_alias", id_alias, labels=("called",), timeout=300, encoded=(Env.discreteGridPosToID,)),
-        X("x_cell_lookup", x_cell_lookup, parts=[{"shape": s} for s in shapes] + [{"shape": [2, 2, 0], "alias": True}], labels=("inside", "outside"), timeout=300,
+        X("x_cell_lookup", x_cell_lookup, parts=[{"shape": s} for s in shapes] + [{"shape": [2, 2, 0], "alias": True}] +
+          [{"shape": [3, 0, 0], "cls": "line"}, {"shape": [1, 0, 0], "cls": "line"}, {"shape": [2, 3, 0], "cls": "grid"}, {"shape": [3, 1, 0], "cls": "grid"}],
+          labels=("inside", "outside"), timeout=300,
           group=4, encoded=enc[:2], bounds={"extents": "0..%d" % M, "coordinates": "all ints"}),
     ]
